@@ -26,6 +26,7 @@ INJECT = [
     ("src/lazyvalue/iterator.rs", "incrate/iterator.rs", "verif_kani_iterator", ""),
     ("src/serde/de.rs", "incrate/serde_de.rs", "verif_kani_serde_de", ""),
     ("src/serde/ser.rs", "incrate/serde_ser.rs", "verif_kani_serde_ser", ""),
+    ("src/serde/number.rs", "incrate/serde_number.rs", "verif_kani_serde_number", ""),
     ("src/format.rs", "incrate/format.rs", "verif_kani_format", ""),
     ("src/writer.rs", "incrate/writer.rs", "verif_kani_writer", ""),
     ("src/util/arch/mod.rs", "incrate/arch.rs", "verif_kani_arch", ""),
@@ -291,11 +292,22 @@ def resolve_unwindset(goto_binary, spec):
             by_fn.setdefault(l[1], []).append(l)
         hit = False
         for fn, ls in by_fn.items():
-            for k, l in enumerate(ls):
-                # negative ordinals count from the last loop of the function in source order
-                if ordinal is None or ordinal == k or (ordinal < 0 and ordinal == k - len(ls)):
+            # rank by *distinct source line*: a `continue` gives a second back edge (a second CBMC loop)
+            # at the same line, and all loops of the selected line get the bound
+            lines = sorted({l[2] for l in ls if l[2] > 0})
+            for l in ls:
+                if l[2] == 0:
+                    continue
+                k = lines.index(l[2])
+                if ordinal is None or ordinal == k or (ordinal < 0 and ordinal == k - len(lines)):
                     chosen[l[0]] = max(bound, chosen.get(l[0], 0))
                     hit = True
+            if hit:
+                # back edges without a source line (`continue` inside one of the loops): CBMC does not say
+                # which loop they belong to, so they get the bound as well
+                for l in ls:
+                    if l[2] == 0:
+                        chosen[l[0]] = max(bound, chosen.get(l[0], 0))
         if not hit:
             unmatched.append((fsub, ordinal))
     if os.environ.get("VERIF_DEBUG_LOOPS"):
